@@ -40,6 +40,10 @@ type Handler struct {
 	// packet.NewErrorParseTCP(ErrorCodeFor(unit), msg) instead of the device's reply
 	ErrorFromUnit uint8
 	Started       chan struct{}
+	// IgnoreContext: the handler does not look at the context it is given; DoneContexts counts the calls that were given a context
+	// that was already done (and were refused for it)
+	IgnoreContext bool
+	DoneContexts  int
 	Calls         int
 	Seen          [][]byte
 }
@@ -60,6 +64,14 @@ func (h *Handler) Handle(ctx context.Context, req packet.Request) (packet.Respon
 	}
 	if delay > 0 {
 		time.Sleep(delay)
+	}
+	// like a gateway that passes its context on to the upstream call, the handler refuses to work with a context that is already done:
+	// while the server is serving and nobody has cancelled the serve context, the context a handler is given is live
+	if err := ctx.Err(); err != nil && !h.IgnoreContext {
+		h.mu.Lock()
+		h.DoneContexts++
+		h.mu.Unlock()
+		return nil, fmt.Errorf("handler: the context it was given is already done: %w", err)
 	}
 	if h.ErrorFromUnit > 0 && len(raw) > 6 && raw[6] >= h.ErrorFromUnit {
 		return nil, packet.NewErrorParseTCP(ErrorCodeFor(raw[6]), "handler refuses this unit")
